@@ -39,6 +39,7 @@ type Plan struct {
 	Cap      int            `json:"cap"`
 	NKeys    int            `json:"nkeys"`
 	Callback bool           `json:"callback"`
+	Sys      bool           `json:"systematic,omitempty"` // a case of the systematic corpus (every short sequence)
 	Clients  [][]Op         `json:"clients"`
 	Cfg      simsync.Config `json:"cfg"`
 }
@@ -210,4 +211,86 @@ func GenC10(r *detsim.Rand, tier string, forceShape string) *Plan {
 		p.Cfg.StepCap = 2000000
 	}
 	return p
+}
+
+// ---------------------------------------------------------------- systematic part of C09
+
+// sysSpace describes one block of the systematic corpus: every operation
+// sequence of length 1..MaxLen over NKeys keys on each capacity 0..MaxCap.
+type sysSpace struct{ NKeys, MaxCap, MaxLen int }
+
+func sysSpaces(tier string) []sysSpace {
+	if tier == "thorough" {
+		return []sysSpace{{2, 2, 6}, {3, 3, 5}}
+	}
+	return []sysSpace{{2, 2, 5}}
+}
+
+func (s sysSpace) alphabet() int { return 3*s.NKeys + 2 } // store/load/delete per key, len, dump
+
+func (s sysSpace) size() uint64 {
+	per, pw := uint64(0), uint64(1)
+	for l := 1; l <= s.MaxLen; l++ {
+		pw *= uint64(s.alphabet())
+		per += pw
+	}
+	return per * uint64(s.MaxCap+1)
+}
+
+// SysC09Total is the number of systematic single-client histories of a tier.
+func SysC09Total(tier string) uint64 {
+	var n uint64
+	for _, s := range sysSpaces(tier) {
+		n += s.size()
+	}
+	return n
+}
+
+// SysC09 returns the n-th systematic history (n < SysC09Total).
+func SysC09(tier string, n uint64) *Plan {
+	for _, s := range sysSpaces(tier) {
+		if n >= s.size() {
+			n -= s.size()
+			continue
+		}
+		per := s.size() / uint64(s.MaxCap+1)
+		cap := int(n / per)
+		n %= per
+		a := uint64(s.alphabet())
+		l, pw := 1, a
+		for n >= pw {
+			n -= pw
+			pw *= a
+			l++
+		}
+		p := &Plan{Prop: "C09", Shape: "seq", Cap: cap, NKeys: s.NKeys, Callback: true, Sys: true}
+		p.Cfg = simsync.Config{Policy: simsync.PolicyUniform, StallTask: -1, Pool: simsync.PoolLIFO}
+		ops := make([]Op, l)
+		vn := 0
+		for i := l - 1; i >= 0; i-- {
+			d := int(n % a)
+			n /= a
+			switch {
+			case d < s.NKeys:
+				ops[i] = Op{K: OpStore, Key: d}
+			case d < 2*s.NKeys:
+				ops[i] = Op{K: OpLoad, Key: d - s.NKeys}
+			case d < 3*s.NKeys:
+				ops[i] = Op{K: OpDelete, Key: d - 2*s.NKeys}
+			case d == 3*s.NKeys:
+				ops[i] = Op{K: OpLen}
+			default:
+				ops[i] = Op{K: OpDump}
+			}
+		}
+		for i := range ops {
+			if ops[i].K == OpStore {
+				vn++
+				ops[i].Val = fmt.Sprintf("v0.%d", vn)
+			}
+		}
+		p.Clients = [][]Op{ops}
+		return p
+	}
+	return nil
 }
